@@ -123,9 +123,13 @@ def h1_step(ctx, kind):
 
 def cases_system(tier):
     out = [dict(K=1, stop=1, ray='marginal', obj='inf'), dict(K=1, stop=1, ray='chief', obj='inf'),
-           dict(K=2, stop=1, ray='marginal', obj='inf'), dict(K=2, stop=1, ray='marginal', obj='inf', mirror=True)]
+           dict(K=2, stop=1, ray='marginal', obj='inf'), dict(K=2, stop=1, ray='marginal', obj='inf', mirror=True),
+           # stop behind the rear focus of the front surface: real entrance pupil in front of the lens, before or behind the launch plane
+           dict(K=2, stop=2, ray='chief', obj='inf', pin=70),
+           # the same numbers: a history (trace, change the glass in front of the stop, trace again); a finite object with angular fields
+           dict(K=2, stop=2, ray='chief', obj='inf', pin=70, edit=True), dict(K=2, stop=2, ray='chief', obj='finite', pin=70)]
     if tier == 'thorough':
-        out += [dict(K=2, stop=2, ray='chief', obj='inf'), dict(K=2, stop=2, ray='chief', obj='inf', edit=True),
+        out += [dict(K=2, stop=2, ray='chief', obj='inf', pin=True), dict(K=2, stop=2, ray='chief', obj='inf'), dict(K=2, stop=2, ray='chief', obj='inf', edit=True),
                 dict(K=2, stop=2, ray='marginal', obj='inf'), dict(K=2, stop=1, ray='chief', obj='inf'),
                 dict(K=1, stop=1, ray='marginal', obj='finite'), dict(K=2, stop=2, ray='marginal', obj='finite'),
                 dict(K=2, stop=2, ray='chief', obj='finite')]     # finite object with ANGULAR fields, entrance pupil not at the first vertex
@@ -133,13 +137,24 @@ def cases_system(tier):
 
 
 @harness('C05', 'H2_system', cases=cases_system, funcs=FUNCS, timeout=400,
-         bounds='real Optic with K=1..2 spherical surfaces (symbolic R, t > 0, n), stop first or second, object at infinity (thorough: '
+         bounds='real Optic with K=1..2 spherical surfaces (symbolic R, t > 0, n; pin: numbers fixed except the distance to the stop), stop first or second, object at infinity (thorough: '
                 'finite); marginal-type ray: pupil coordinate eps, field 0; chief-type ray: maximum field eps*theta, pupil 0',
          doc='real-ray height / eps at every surface (through generate_rays and the whole sequential trace) tends to the paraxial '
              'marginal resp. chief ray with vanishing second-order term; the chief-type ray tends to the centre of the stop; the real '
              'axial focus tends to the paraxial back focal position')
-def h2_system(ctx, K, stop, ray, obj, mirror=False, edit=False):
+def h2_system(ctx, K, stop, ray, obj, mirror=False, edit=False, pin=False):
     L = Lens(ctx, K, ((K,) if mirror else ()), stop, obj, tpos=True)
+    if pin:
+        # one-parameter family (quick tier): R1 = 20, n1 = 3/2 (rear focus 60 behind the vertex), stop surface R2 = -30 into n2 = 5/4 at the
+        # symbolic distance t1 in (61, 200) - the entrance pupil is the real image of the stop in front of the lens, at -40 t1 / (t1 - 60)
+        L.R = [20.0, -30.0]
+        L.c = [ctx.const(0.05), 1 / ctx.const(-30.0)]
+        L.n = [1.5, 1.25]
+        L.t[1] = 50.0
+        L.t[0] = 70.0 if pin == 70 else L.t[0]
+        if pin is True:
+            ctx.assume(L.t[0] > 61)
+            ctx.assume(L.t[0] < 200)
     for t_ in L.t:
         ctx.assume(t_ > 0)       # surfaces are separated (with zero separation a ray has to travel backwards to the next vertex plane)
     if mirror:
@@ -172,7 +187,7 @@ def h2_system(ctx, K, stop, ray, obj, mirror=False, edit=False):
         # a history: analyse / trace the lens, then change the glass in front of the stop, then trace again
         o.trace_generic(0.0, H, ctx.arr(0.0), arrP, 0.55)
         o.paraxial.EPL()
-        o.set_index(ctx.real('n_new', lo=1.0, hi=4.0), 1)
+        o.set_index(1.75 if pin else ctx.real('n_new', lo=1.0, hi=4.0), 1)
         if not pupil_ok():
             return
     o.trace_generic(0.0, H, ctx.arr(0.0), arrP, 0.55)
